@@ -213,8 +213,17 @@ def summarize(case):
     }
 
 
+TRACKING_MODULES = [
+    "sleap_nn.tracking.utils",
+    "sleap_nn.tracking.track_instance",
+    "sleap_nn.tracking.candidates.fixed_window",
+    "sleap_nn.tracking.candidates.local_queues",
+    "sleap_nn.tracking.tracker",
+]
+
+
 def parts(tier):
-    return [
+    out = [
         Part(
             name="history",
             evaluate=evaluate,
@@ -224,6 +233,22 @@ def parts(tier):
             summarize=summarize,
         )
     ]
+    if tier == "thorough":
+        # the same histories and invariants, but searched by libFuzzer with branch coverage of the tracking
+        # package as the guide (16 independent campaigns): reaches branch combinations of Tracker.track /
+        # the candidate classes that uniform sampling visits rarely
+        out.append(
+            Part(
+                name="history-coverage-guided",
+                evaluate=evaluate,
+                strategy=lambda: strategy(14),
+                budget={"thorough": 64000},
+                min_nontrivial={"thorough": 2000},
+                summarize=summarize,
+                fuzz={"instrument": ["sleap_nn.tracking"], "modules": TRACKING_MODULES},
+            )
+        )
+    return out
 
 
 if __name__ == "__main__":
